@@ -45,9 +45,9 @@ var (
 	tFail1   = time.Date(2019, 6, 1, 0, 0, 0, 0, time.UTC)
 	tFail2   = time.Date(2025, 12, 1, 0, 0, 0, 0, time.UTC)
 	tFailB   = time.Date(2019, 12, 1, 0, 0, 0, 0, time.UTC)
-	tDefault = time.Date(2026, 1, 1, 0, 0, 0, 0, time.UTC)
+	tDefault = time.Date(2025, 12, 31, 22, 0, 0, 0, time.FixedZone("def-zone", -2*3600)) // 2026-01-01T00:00:00Z, carried in a zone of its own
 	tDefBad  = time.Date(2018, 1, 1, 0, 0, 0, 0, time.UTC)
-	tCatch   = time.Date(2001, 2, 3, 4, 5, 6, 0, time.UTC)
+	tCatch   = time.Date(2001, 2, 3, 5, 5, 6, 0, time.FixedZone("catch-zone", 3600)) // 2001-02-03T04:05:06Z, carried in a zone of its own
 	tSentinl = time.Date(1999, 9, 9, 9, 9, 9, 0, time.UTC)
 )
 
@@ -196,6 +196,10 @@ func (n *Node) Describe() string {
 		sb.WriteString(".Default(ok)")
 	case 2:
 		sb.WriteString(".Default(failing)")
+	case 3:
+		sb.WriteString(".Default(zero value / holding a zero item)")
+	case 4:
+		sb.WriteString(".Default(empty list)")
 	}
 	if n.Catch {
 		sb.WriteString(".Catch(c)")
@@ -283,6 +287,9 @@ func (n *Node) defaultValue() reflect.Value {
 		return reflect.ValueOf(primValue(n.Kind, c))
 	}
 	if n.Kind == KSlice {
+		if n.DefClass == 4 {
+			return reflect.MakeSlice(n.GoType(), 0, 0)
+		}
 		// passing default: 2 valid elements; failing default: 1 element (fails min and t2)
 		cnt := 2
 		if n.DefClass == 2 {
